@@ -34,8 +34,8 @@ DurSet == {<<o, dur[o].st, Len(dur[o].atts)>> : o \in DOMAIN dur}
 Matches ==
   /\ Emitted /\ E1.ev = Ev.ev
   /\ CASE Ev.ev = "W" -> E1.obj = Ev.obj /\ E1.st = Ev.st /\ E1.natt = Ev.natt
-       [] Ev.ev = "PStart" -> E1.obj = Ev.obj /\ E1.n = Ev.n
-       [] Ev.ev = "PEnd" -> E1.obj = Ev.obj /\ E1.n = Ev.n /\ E1.out = Ev.out
+       [] Ev.ev = "PStart" -> E1.obj = Ev.obj /\ E1.n = Ev.n /\ E1.ov = Ev.ov
+       [] Ev.ev = "PEnd" -> E1.obj = Ev.obj /\ E1.n = Ev.n /\ (E1.out = Ev.out \/ (E1.out = "overrun" /\ Ev.out = "lateok"))
        [] Ev.ev = "WaitRet" -> RowSet(Ev.snap) = DurSet /\ Ev.reason = dreason
        [] Ev.ev = "NewProc" -> E1.running = Ev.running
        [] OTHER -> TRUE
@@ -44,7 +44,7 @@ Redundant == Ev.ev = "W" /\ dur[Ev.obj].st = Ev.st /\ Len(dur[Ev.obj].atts) = Ev
 \* (a new process that finds nothing to resume: the model goes straight to what Wait returns)
 NotModelled == (Ev.ev \in {"StartCall", "StartRet", "R", "Read", "End", "ApiRet", "Diverged"} \/ (Ev.ev = "NewProc" /\ ~Ev.running)) /\ UNCHANGED vars
 
-EngineStep == (alive /\ (Internal \/ PluginReturn)) \/ (~alive /\ NewProcess)
+EngineStep == (alive /\ (Internal \/ PluginReturn \/ LateReturn)) \/ (~alive /\ NewProcess)
 CNext == \/ (More /\ ((EngineStep /\ Matches) \/ Redundant \/ NotModelled) /\ l' = l + 1)
          \/ (EngineStep /\ ~Emitted /\ UNCHANGED l)
 (* A trace of a process that RESUMES a plan after a crash (crash-point rebuild, SIGKILL, write failure) starts    *)
@@ -67,7 +67,7 @@ CrashInit ==
   /\ waiter = "none" /\ alive = FALSE /\ crashes = 1
   /\ ncall = [o \in {d.obj : d \in {x \in DescsOf(sh) : x.k \in {"act", "cact"}}} |-> 0]
   /\ fate = [o \in {d.obj : d \in {x \in DescsOf(sh) : x.k \in {"act", "cact"}}} |-> "?"]
-  /\ wq = <<>> /\ aged = TraceLog[2].old
+  /\ wq = <<>> /\ aged = TraceLog[2].old /\ late = {}
   /\ obs = Observe(InitObs(ConfigOf(sh)), [ev |-> "Crash", snap |-> SnapSeq(dur), reason |-> dreason, base |-> "-", old |-> aged, recovery |-> TRUE])
   /\ bad = {} /\ hist = <<[ev |-> "none"], 0>>
   /\ l = 3
